@@ -91,7 +91,7 @@ def _detect_shapes(kinds, n, w, tier):
     for k in kinds:
         for s in range(n):
             yield dict(kind=k, start=s, width=1)
-        starts = range(0, n - 1) if tier == "thorough" else sorted(set(range(0, n - 1, 8)) | {n - w - 1, n - w, n - w + 1, n - 2})
+        starts = range(0, n - 1) if tier == "thorough" else sorted(set(range(0, n - 1, 8)) | {3, 10, n - w - 1, n - w, n - w + 1, n - 2})  # (every eighth position, two unaligned ones, the ends)
         for s in starts:
             yield dict(kind=k, start=s, width=w)
 
